@@ -5,6 +5,7 @@ import (
 	"errors"
 	"encoding/pem"
 	"fmt"
+	"strings"
 	"sync/atomic"
 	"testing"
 
@@ -193,6 +194,10 @@ func (w *world) refusedSig(o ropt, noCompliantPath bool) string {
 		return "refused-notafter-equal-to-window-start"
 	case !o.now.IsZero() && o.c.RejectExpired && lm.notAfter.Equal(o.now):
 		return "refused-as-expired-at-notafter"
+	}
+	// a valid chain that carries something the log must ignore: name the first such feature
+	if fs := w.ignoredFeatures(); len(fs) > 0 {
+		return "refused-valid-chain-" + strings.TrimPrefix(fs[0], "ignored:")
 	}
 	return "refused-valid-chain"
 }
